@@ -123,7 +123,7 @@ def _simple_helper(fn, allow_nested=True):
         if own_returns:
             return None
         body = body + [ast.Return(value=ast.Constant(value=None))]
-    kinds = (ast.Assign, ast.AugAssign, ast.AnnAssign, ast.If, ast.For, ast.Expr, ast.While, ast.FunctionDef, ast.Raise, ast.Pass, ast.Delete, ast.Assert)
+    kinds = (ast.Assign, ast.AugAssign, ast.AnnAssign, ast.If, ast.For, ast.Expr, ast.While, ast.FunctionDef, ast.Raise, ast.Pass, ast.Delete, ast.Assert, ast.With)
     for s in body[:-1]:
         if not isinstance(s, kinds):
             return None
@@ -132,11 +132,11 @@ def _simple_helper(fn, allow_nested=True):
         for n in _walk_own(s):
             if isinstance(n, ast.Return):
                 return None
-            if isinstance(n, (ast.Break, ast.Continue)) and not isinstance(s, (ast.For, ast.While)):
+            if isinstance(n, (ast.Break, ast.Continue)) and not _inside_loop(s, n):
                 return None
     for s in body:
         for n in _walk_own(s):
-            if isinstance(n, (ast.Yield, ast.YieldFrom, ast.NamedExpr, ast.Global, ast.Nonlocal, ast.Try, ast.With)):
+            if isinstance(n, (ast.Yield, ast.YieldFrom, ast.NamedExpr, ast.Global, ast.Nonlocal, ast.Try)):
                 return None
     for n in ast.walk(fn):
         if isinstance(n, (ast.Global, ast.Nonlocal, ast.Yield, ast.YieldFrom)):
@@ -145,6 +145,21 @@ def _simple_helper(fn, allow_nested=True):
         return None
     extra = (a.vararg.arg if a.vararg else None, a.kwarg.arg if a.kwarg else None, [x.arg for x in a.kwonlyargs], list(a.kw_defaults))
     return [x.arg for x in a.args], body[:-1], body[-1].value, a.defaults, extra
+
+
+def _inside_loop(root, target):
+    """target (a break / continue) is enclosed by a loop that lies inside root (root included)"""
+    def walk(n, in_loop):
+        if n is target:
+            return in_loop
+        if isinstance(n, (ast.FunctionDef, ast.AsyncFunctionDef, ast.Lambda, ast.ClassDef)) and n is not root:
+            return None
+        for c in ast.iter_child_nodes(n):
+            r = walk(c, in_loop or isinstance(n, (ast.For, ast.While)))
+            if r is not None:
+                return r
+        return None
+    return bool(walk(root, False))
 
 
 def _walk_own(node):
@@ -329,10 +344,12 @@ class Inliner:
         self.methods = {}       # (class name, method name) -> FunctionDef (private methods)
         self.local_helpers = {}  # name -> nested FunctionDef (set while a local closure is being inlined)
         self.static_methods = {}  # (class name, method name) -> (FunctionDef, 'staticmethod' | 'classmethod')
+        self.bases = {}
         for n in tree.body:
             if isinstance(n, ast.FunctionDef) and n.name.startswith('_') and not n.name.startswith('__'):
                 self.helpers[n.name] = n
             if isinstance(n, ast.ClassDef):
+                self.bases[n.name] = [b.id for b in n.bases if isinstance(b, ast.Name)]
                 for m in n.body:
                     if isinstance(m, ast.FunctionDef) and m.name.startswith('_') and not m.name.startswith('__') and not m.decorator_list:
                         self.methods[(n.name, m.name)] = m
@@ -351,6 +368,16 @@ class Inliner:
                     if isinstance(m, ast.FunctionDef):
                         self.process_function(m, n.name)
 
+    def mro(self, cls):
+        out, todo = [], [cls]
+        while todo:
+            c = todo.pop(0)
+            if c in out or c is None:
+                continue
+            out.append(c)
+            todo.extend(self.bases.get(c, []))
+        return out
+
     def callee(self, call, cls):
         f = call.func
         if isinstance(f, ast.Name) and f.id in self.local_helpers:
@@ -360,12 +387,21 @@ class Inliner:
         if isinstance(f, ast.Name) and f.id in self.helpers:
             return self.helpers[f.id], False
         if cls is not None and isinstance(f, ast.Attribute) and isinstance(f.value, ast.Name) and f.value.id == 'self':
-            for nm in (f.attr, '_%s%s' % (cls.lstrip('_'), f.attr) if f.attr.startswith('__') else f.attr):
-                if (cls, nm) in self.methods:
-                    return self.methods[(cls, nm)], True
+            for c_ in self.mro(cls):
+                # a private method inherited from a base class of the same module - unless a class in between overrides it
+                if (c_, f.attr) in self.methods:
+                    return self.methods[(c_, f.attr)], True
+                if (c_, f.attr) in self.static_methods:
+                    break
         if isinstance(f, ast.Attribute) and isinstance(f.value, ast.Name) and (f.value.id in ('self', 'cls') and cls is not None or any(c == f.value.id for c, _ in self.static_methods)):
             owner_cls = cls if f.value.id in ('self', 'cls') else f.value.id
-            hit = self.static_methods.get((owner_cls, f.attr))
+            hit = None
+            for c_ in self.mro(owner_cls):
+                if (c_, f.attr) in self.static_methods:
+                    hit = self.static_methods[(c_, f.attr)]
+                    break
+                if (c_, f.attr) in self.methods:
+                    break
             if hit is not None and hit[1] == 'staticmethod':
                 return hit[0], False        # a private static method is a plain function
         return None, False
@@ -1301,10 +1337,75 @@ def _drop_dead_helpers(tree, inl):
             fn._sa_inlined_everywhere = True
 
 
+def apply_simple_decorators(tree):
+    """@d on a function, where d is a module-level function of this module of the shape
+
+           def d(fn):                                  def d(fn):
+               @functools.wraps(fn)                        @functools.wraps(fn)
+               def wrapper(*args, **kwargs):                def wrapper(self, *args, **kwargs):
+                   return fn(*args, **kwargs)                   with CTX:
+               return wrapper                                       return fn(self, *args, **kwargs)
+                                                            return wrapper
+
+    is applied at analysis time: a pass-through decorator is dropped, a with-decorator wraps the body of the decorated function in `with CTX:`."""
+    decos = {}
+    for n in tree.body:
+        if not (isinstance(n, ast.FunctionDef) and len(n.args.args) == 1 and not n.args.vararg and not n.args.kwarg):
+            continue
+        body = [s for s in n.body if not (isinstance(s, ast.Expr) and isinstance(s.value, ast.Constant))]
+        if len(body) != 2 or not isinstance(body[0], ast.FunctionDef) or not isinstance(body[1], ast.Return) or not isinstance(body[1].value, ast.Name) or body[1].value.id != body[0].name:
+            continue
+        fn_param, w = n.args.args[0].arg, body[0]
+        if not all(isinstance(d, ast.Call) and isinstance(d.func, (ast.Name, ast.Attribute)) and (d.func.id if isinstance(d.func, ast.Name) else d.func.attr) == 'wraps' for d in w.decorator_list):
+            continue
+        wb = [s for s in w.body if not (isinstance(s, ast.Expr) and isinstance(s.value, ast.Constant))]
+
+        def passthrough(call):
+            # fn(<the wrapper's own parameters, in order>, *args, **kwargs)
+            if not (isinstance(call, ast.Call) and isinstance(call.func, ast.Name) and call.func.id == fn_param):
+                return False
+            pos = [a.arg for a in w.args.args]
+            got = [a.id for a in call.args if isinstance(a, ast.Name)]
+            star = [a.value.id for a in call.args if isinstance(a, ast.Starred) and isinstance(a.value, ast.Name)]
+            dstar = [k.value.id for k in call.keywords if k.arg is None and isinstance(k.value, ast.Name)]
+            return got == pos and star == ([w.args.vararg.arg] if w.args.vararg else []) and dstar == ([w.args.kwarg.arg] if w.args.kwarg else []) \
+                and len(call.args) == len(got) + len(star) and len(call.keywords) == len(dstar) and w.args.vararg is not None and w.args.kwarg is not None
+        if len(wb) == 1 and isinstance(wb[0], ast.Return) and passthrough(wb[0].value):
+            decos[n.name] = ('pass', None)
+        elif len(wb) == 1 and isinstance(wb[0], ast.With) and len(wb[0].body) == 1 and isinstance(wb[0].body[0], ast.Return) and passthrough(wb[0].body[0].value) \
+                and all(it.optional_vars is None for it in wb[0].items) \
+                and not any(isinstance(x, ast.Name) and x.id in {a.arg for a in w.args.args} | {w.args.vararg.arg, w.args.kwarg.arg} for it in wb[0].items for x in ast.walk(it.context_expr)):
+            decos[n.name] = ('with', wb[0].items)
+    if not decos:
+        return False
+    changed = False
+    for f in ast.walk(tree):
+        if isinstance(f, ast.FunctionDef) and f.decorator_list:
+            keep = []
+            for d in reversed(f.decorator_list):            # applied bottom-up
+                if isinstance(d, ast.Name) and d.id in decos and not keep:
+                    kind, items = decos[d.id]
+                    if kind == 'with' and not any(isinstance(x, (ast.Yield, ast.YieldFrom)) for x in ast.walk(f)):
+                        w_ = ast.With(items=copy.deepcopy(items), body=f.body, type_comment=None)
+                        ast.copy_location(w_, f.body[0])
+                        f.body = [w_]
+                        ast.fix_missing_locations(f)
+                        changed = True
+                    elif kind == 'pass':
+                        changed = True
+                    else:
+                        keep.insert(0, d)
+                else:
+                    keep.insert(0, d)
+            f.decorator_list = keep
+    return changed
+
+
 def normalize_module(tree, modname):
     from . import lower
     spell = Spelling(methods=modname in KERNEL_MODULES)
     spell.visit(tree)
+    apply_simple_decorators(tree)
     inl = Inliner(tree)
     lower.lower_module(tree, inl, extra_passes=(lambda t: spell.visit(t), lambda t: UnrollLiteral().visit(t), lambda t: UnrollComp().visit(t)))
     if inl.helpers or inl.methods:
@@ -1317,7 +1418,7 @@ def normalize_module(tree, modname):
     AppendLoop().visit(tree)
     TupleCanon().visit(tree)
     ast.fix_missing_locations(tree)
-    lower.lower_module(tree, inl, extra_passes=(lambda t: spell.visit(t),))       # copies left by tuple splitting, folds exposed by the loop passes
+    lower.lower_module(tree, inl, extra_passes=(lambda t: spell.visit(t), lambda t: IfAssign().visit(t), lambda t: TupleCanon().visit(t)))   # copies left by tuple splitting, folds exposed by the loop passes
     if inl.helpers or inl.methods:
         _drop_dead_helpers(tree, inl)
     return tree
